@@ -40,10 +40,12 @@ type Keyring struct {
 }
 
 // Special address names.
-var specials = map[string]string{
-	"BURN":    node.GlobalBurnAddress,
-	"OLDBURN": node.GlobalOldBurnAddress,
-	"MINT":    node.GlobalMintAddress,
+func specialAddrs() map[string]string {
+	return map[string]string{
+		"BURN":    node.GlobalBurnAddress,
+		"OLDBURN": node.GlobalOldBurnAddress,
+		"MINT":    node.GlobalMintAddress,
+	}
 }
 
 // NewKeyring derives deterministic keys for the given names.
@@ -54,7 +56,10 @@ func NewKeyring(keys map[string]string) (*Keyring, error) {
 			return nil, err
 		}
 	}
-	for name, s := range specials {
+	for name, s := range specialAddrs() {
+		if _, ok := kr.ByName[name]; ok {
+			continue // the scenario holds the key of this address (MINT, see ApplySchedule)
+		}
 		fa, err := factom.NewFAAddress(s)
 		if err != nil {
 			return nil, err
@@ -82,21 +87,26 @@ func (kr *Keyring) Add(name, typ string) error {
 	if _, ok := kr.ByName[name]; ok {
 		return nil
 	}
+	if typ != "ed" && typ != "" && typ != "rcde" {
+		return fmt.Errorf("unknown key type %q for %s", typ, name)
+	}
+	kr.addKey(deriveKey(name, typ))
+	return nil
+}
+
+// deriveKey derives the deterministic key pair of a name.
+func deriveKey(name, typ string) *Key {
 	seed := sha256.Sum256([]byte("verif-key:" + name))
 	k := &Key{Name: name, Type: typ}
-	switch typ {
-	case "ed", "":
+	if typ == "rcde" {
+		k.Eth = factom.EthSecret(seed)
+		k.FA = k.Eth.FAAddress()
+	} else {
 		k.Type = "ed"
 		k.Fs = factom.FsAddress(seed)
 		k.FA = k.Fs.FAAddress()
-	case "rcde":
-		k.Eth = factom.EthSecret(seed)
-		k.FA = k.Eth.FAAddress()
-	default:
-		return fmt.Errorf("unknown key type %q for %s", typ, name)
 	}
-	kr.addKey(k)
-	return nil
+	return k
 }
 
 // Get returns the key or an error.
